@@ -58,12 +58,13 @@ var c06Latest = &params.ChainConfig{ChainId: big.NewInt(1), HomesteadBlock: big.
 // contract stub: what the callee frame did, recorded for the oracle
 
 type c06StubLog struct {
-	called bool
-	gasIn  uint64 // gas forwarded to the frame
-	left   uint64 // leftover returned by the frame
-	err    error
-	moved  bool // the value transfer happened (and was not rolled back)
-	insuff bool
+	called     bool
+	gasIn      uint64 // gas forwarded to the frame
+	left       uint64 // leftover returned by the frame
+	err        error
+	moved      bool // the value transfer happened (and was not rolled back)
+	mayKeepGas bool // the frame may fail with leftover gas (REVERT from Byzantium on; the frame stub's unspecified error)
+	insuff     bool
 }
 
 var c06Stub c06StubLog
@@ -180,7 +181,7 @@ func c06idx(a common.Address) int {
 // VerifC06_TransferStub: TransitionDb of a message call, callee frame stubbed.
 func VerifC06_TransferStub() {
 	t := c06Setup(3, vs.Param("N"))
-	c06Stub = c06StubLog{}
+	c06Stub = c06StubLog{mayKeepGas: true} // the stub's error stands for revert as well as for out-of-gas
 	evm := t.evm(vm.Config{})
 	to := t.to
 	msg := types.NewMessage(t.sender, &to, t.nonce, t.value, t.limit, t.price, t.data, true)
@@ -276,6 +277,9 @@ func c06CheckCall(t *c06Tx, fr *c06StubLog, pool1 uint64, used uint64, failed bo
 		vs.Assert(a.nonce == wn, "nonce' = nonce + 1 for the sender only")
 	}
 	vs.Assert(len(t.db.accts) == 3, "no account appears")
+	if failed && !fr.mayKeepGas {
+		vs.Assert(fr.left == 0, "a failed call (other than REVERT) consumes all its gas")
+	}
 	// the literal clause of the property; with a non-zero refund counter the protocol itself
 	// lets gasUsed drop below the intrinsic gas (recorded finding, see known_findings.json)
 	vs.Known("C06-refund-below-intrinsic", t.db.refund != 0)
@@ -337,13 +341,15 @@ func (tr *c06Tracer) CaptureEnd(output []byte, gasUsed uint64, d time.Duration, 
 // VerifC06_TransferEVM: TransitionDb + real EVM.Call + interpreter.
 func VerifC06_TransferEVM() {
 	t := c06Setup(3, vs.Param("N"))
-	prog := c06Programs[vs.Choice("program", vs.Param("P"))]
+	pi := vs.Choice("program", vs.Param("P"))
+	prog := c06Programs[pi]
 	t.db.find(t.to).code = prog
 	if prog != nil {
 		// an account with code exists
 		vs.Assume(t.db.find(t.to).exist)
 	}
 	tr := &c06Tracer{db: t.db}
+	tr.log.mayKeepGas = pi == 3 && t.cfg.IsByzantium(big.NewInt(100)) // REVERT keeps the leftover gas from Byzantium on
 	if len(prog) > 0 {
 		tr.last = uint64(len(prog) - 1)
 	}
